@@ -36,6 +36,10 @@ var c02Panel = []struct {
 	{spg.CharRecipe{Length: 3, Allow: spg.Digits, Exclude: spg.Ambiguous, ExcludeChars: "2346", RequireSets: []string{"78"}}, 2},
 	{spg.CharRecipe{Length: 2, AllowChars: "abc", RequireSets: []string{"ab", "ab"}}, 2},
 	{spg.CharRecipe{Length: 3, AllowChars: "abcd", RequireSets: []string{"abc", "a"}}, 3},
+	{spg.CharRecipe{Length: 2, AllowChars: "ab\uFFFD"}, 0},
+	{spg.CharRecipe{Length: 2, AllowChars: "a", RequireSets: []string{"x\uFFFD"}}, 2},
+	{spg.CharRecipe{Length: 3, AllowChars: "b", RequireSets: []string{"aac"}}, 2},
+	{spg.CharRecipe{Length: 3, Allow: spg.Digits, ExcludeChars: "06789", RequireSets: []string{"13355"}}, 2},
 }
 
 func c02Counts(tier string) (trees, slices int) {
